@@ -133,7 +133,20 @@ func runC16(e *Env) {
 							r.OK("E6.panic", load.FuncName(fn)+"/MustCompile/"+s, p.Pos(x.Pos()), "constant pattern compiles")
 						}
 					}
-					if flow.CalleeIs(x, "bufio", "Scanner.Split") || flow.CalleeIs(x, "bufio", "Scanner.Buffer") {
+					if flow.CalleeIs(x, "bufio", "Scanner.Buffer") {
+						// Buffer keeps the default split function; it panics only when called after scanning has started: no
+						// Scan call of this function may run before it
+						nScan++
+						early := true
+						for _, c2 := range flow.Calls(fn) {
+							if sc, ok := c2.(*ssa.Call); ok && flow.CalleeIs(sc, "bufio", "Scanner.Scan") && (instrReachesNoRepeat(sc, x, nil) || sc.Block() == x.Block() && flow.InstrIndex(sc) < flow.InstrIndex(x)) {
+								early = false
+							}
+						}
+						r.Check(early, "E6.panic", load.FuncName(fn)+"/scanner-buffer", p.Pos(x.Pos()), "Scanner.Buffer is called before the first Scan (it panics afterwards); the split function stays the default",
+							"Scanner.Buffer can run after scanning has started: it panics")
+					}
+					if flow.CalleeIs(x, "bufio", "Scanner.Split") {
 						r.Unknown("E6.panic", load.FuncName(fn)+"/scanner-config", p.Pos(x.Pos()), "custom scanner configuration: Scan's no-panic guarantee needs the default split function")
 					}
 				case *ssa.Go:
